@@ -43,7 +43,11 @@ JMap(m) == {<<S(m[k][1]), S(m[k][2])>> : k \in 1..Len(m)}
 JPairs(m) == [k \in 1..Len(m) |-> <<S(m[k][1]), S(m[k][2])>>]
 JConv(j) == [delim |-> S(j.delim), recs |-> JRecs(j.recs), pm |-> JMap(j.pm), s2p |-> JMap(j.s2p),
              rpm |-> JMap(j.rpm), trie |-> JMap(j.trie), pat |-> JMap(j.pat)]
-JConvs(js) == [k \in 1..Len(js) |-> JConv(js[k])]
+\* the converters after event l of trace t; an entry {"same": true} stands for the value after the previous event
+RECURSIVE PostOf(_, _)
+PostOf(t, l) == IF l = 0 THEN <<>>
+                ELSE LET js == D.traces[t].events[l].convs  prev == PostOf(t, l - 1) IN
+                     [k \in 1..Len(js) |-> IF "same" \in DOMAIN js[k] THEN prev[k] ELSE JConv(js[k])]
 \* synonym lists without repetition (the quantifiers speak of sets)
 CleanRec(j) == Cardinality(SSet(j.ps)) = Len(j.ps) /\ Cardinality(SSet(j.us)) = Len(j.us)
 
@@ -239,12 +243,12 @@ OpMonBad(pre, post, op, log) ==
     [] OTHER -> {}
 
 ---------------------------------------------------------------------------
-PreOf(t, l) == IF l = 1 THEN <<>> ELSE JConvs(Traces[t].events[l - 1].convs)
+PreOf(t, l) == PostOf(t, l - 1)
 
 EventBad(t, l) ==
   LET ev == Traces[t].events[l]
       pre == PreOf(t, l)
-      post == JConvs(ev.convs)
+      post == PostOf(t, l)
       r == ApplyOp(pre, ev.op)
       \* non-strict construction is specified (overwrite order) but no property speaks about it: its clauses carry
       \* their own name so that they are never attributed to C04
@@ -262,7 +266,7 @@ EventBad(t, l) ==
   \* every other converter is untouched (C10), component by component
   UNION {{<<"frame", k, x>> : x \in ConvDiff(pre[i], post[i])} :
             i \in {i \in 1..Len(pre) : i <= Len(post) /\ i # r.tgt}} \cup
-  (IF \E i \in 1..Len(ev.convs) : ~ViewsOK(ev.convs[i]) THEN {<<"views", k>>} ELSE {}) \cup
+  (IF \E i \in 1..Len(ev.convs) : "same" \notin DOMAIN ev.convs[i] /\ ~ViewsOK(ev.convs[i]) THEN {<<"views", k>>} ELSE {}) \cup
   UNION {RowBad(post[ev.pt[q].i], ev.pt[q]) : q \in 1..Len(ev.pt)} \cup
   UNION {PRowBad(post[ev.ppt[q].i], ev.ppt[q]) : q \in 1..Len(ev.ppt)} \cup
   UNION {MonBad(ev, i, post[i]) : i \in {ev.pt[q].i : q \in 1..Len(ev.pt)} \cup {ev.ppt[q].i : q \in 1..Len(ev.ppt)}} \cup
